@@ -11,7 +11,7 @@ import warnings
 
 import numpy as np
 
-from mc.util import call, raised
+from mc.util import call, raised, array_args, array_args_unchanged
 from models import gridref as G
 
 ID = "C05"
@@ -40,6 +40,12 @@ def bounds(tier, seed):
 
 
 def cases(tier, seed):
+    """Every fifth grid case (rotating with the seed) passes region / shape / spacing as numpy arrays (purity checked)."""
+    for i, c in enumerate(_cases(tier, seed)):
+        yield dict(c, args="ndarray") if (i + seed) % 5 == 0 and c["kind"] == "grid" else c
+
+
+def _cases(tier, seed):
     for ri in range(len(REGIONS)):
         for nc in (1, 2, 3):
             for spec in SPECS:
@@ -228,7 +234,12 @@ def run(case, rec):
             kw["region"] = region
         if case["proj"] != "none":
             kw["projection"] = _proj(case["proj"])
-        ds = call(rec, g.grid, **kw)
+        if case.get("args") == "ndarray":
+            kw_a, snap = array_args(kw)
+            ds = call(rec, g.grid, **kw_a)
+            rec.check(array_args_unchanged(kw_a, snap), "grid() modified an argument array: %r" % ({k: kw_a[k].tolist() for k in snap},))
+        else:
+            ds = call(rec, g.grid, **kw)
         if raised(ds):
             return rec.check(False, "grid raised %r" % (ds,))
         # reference coordinates
